@@ -99,7 +99,16 @@ def cases(seed, tier):
                               'emdpath': rng.choice([None, 'q/zz/yy', 'nope'])})
                 if steps[-1]['emdpath'] is None:
                     del steps[-1]['emdpath']
-        out.append({'tops': tops, 'steps': steps})
+        sc = {'tops': tops, 'steps': steps}
+        if rng.random() < 0.2 and t['mds']:
+            # root metadata renamed after attachment as well, and the tree appended twice into one file (the second time every
+            # entry is already there and is skipped).  How such entries are named in the file is outside the model: oracle only
+            t['mds'] = [[m[0], m[1], m[0] + '_v2'] for m in t['mds']]
+            f = fresh()
+            for md_ in (rng.choice(['w', 'a']), 'a', rng.choice(['a', 'append', 'ao'])):
+                steps.append({'op': 'save', 'file': f, 'top': 0, 'tp': rng.choice([[], rng.choice(T.all_paths(t))]), 'mode': md_, 'tree': rng.choice([True, None])})
+            sc['oracle_only'] = True
+        out.append(sc)
     # composition (Custom) nodes: the nodes held in attributes are caller objects too (this stream comes last: see emit)
     return out + [K.gen_c19_custom(rng) for _ in range(n // 4)] + [K.gen_c19_state(rng) for _ in range(n // 5)]
 
